@@ -25,6 +25,7 @@ type AppxSpec struct {
 	Names   string // "ext" (a.png, b.txt, ...), "noext" (first payload file is called LICENSE, with an Override content type), "subdir" (Assets/a.png), "upper" (A.PNG)
 	NoPE    bool   // content-only package: no executable (otherwise a generated PE image app.exe is the first member)
 	NoBlock bool   // no AppxBlockMap.xml / [Content_Types].xml yet (manifest is the last member)
+	Noise   bool   // payload is incompressible (deflate emits stored blocks and ends the stream with a separate empty final block)
 }
 
 func (s AppxSpec) Name() string {
@@ -39,7 +40,21 @@ func (s AppxSpec) Name() string {
 	if s.NoBlock {
 		n += "/no-blockmap"
 	}
+	if s.Noise {
+		n += "/incompressible"
+	}
 	return n
+}
+
+// noiseContent is an incompressible, reproducible byte string.
+func noiseContent(seed, n int) []byte {
+	out := make([]byte, 0, n+32)
+	h := sha256.Sum256([]byte(fmt.Sprintf("zpkggen noise %d", seed)))
+	for len(out) < n {
+		out = append(out, h[:]...)
+		h = sha256.Sum256(h[:])
+	}
+	return out[:n]
 }
 
 const appxManifestXML = `<?xml version="1.0" encoding="utf-8"?>
@@ -141,6 +156,9 @@ func BuildAppx(s AppxSpec) []byte {
 	for i, sz := range s.Sizes {
 		name := fmt.Sprintf("%c.%s", 'a'+i, exts[i%len(exts)])
 		data := Content(i+1, sz)
+		if s.Noise {
+			data = noiseContent(i+1, sz)
+		}
 		switch s.Names {
 		case "noext":
 			if i == 0 {
@@ -300,6 +318,10 @@ func AppxShapes(thorough bool) []shape.Shape {
 		mkAppx(with(func(s *AppxSpec) { s.Sizes = []int{65537} }), "size-64KiB+1-deflate", true),
 		mkAppx(with(func(s *AppxSpec) { s.Sizes = []int{1<<20 + 1}; s.Mode = "stored" }), "size-1MiB+1-stored", true),
 		mkAppx(with(func(s *AppxSpec) { s.NoBlock = true; s.Mode = "stored" }), "no-blockmap-stored", false),
+		// incompressible members whose size is a multiple of the inflater's 32 KiB window: the deflate stream ends
+		// with an empty final block that a reader driven by the uncompressed size never has to look at
+		mkAppx(with(func(s *AppxSpec) { s.Sizes = []int{32768, 131072}; s.Noise = true }), "incompressible-32KiB-multiples-deflate", true),
+		mkAppx(with(func(s *AppxSpec) { s.Sizes = []int{32767, 65536}; s.Noise = true; s.Mode = "deflate-dd" }), "incompressible-32KiB-multiples-deflate", true),
 	)
 	if !thorough {
 		return out
